@@ -52,6 +52,7 @@ type Options struct {
 	VolumeSizeLimit  uint64 // default 1 GiB
 	FileSizeLimitMB  int    // volume server upload limit (default 256)
 	DefaultRepl      string
+	CompactionMBps   int // volume server compaction throttle (0 = unthrottled)
 	// interceptors installed on the filer's gRPC server (to record what reaches it)
 	FilerUnary  grpc.UnaryServerInterceptor
 	FilerStream grpc.StreamServerInterceptor
@@ -70,17 +71,17 @@ type VolInfo struct {
 
 type Master struct {
 	master_pb.UnimplementedSeaweedServer
-	mu       sync.Mutex
-	seq      *sequence.MemorySequencer
-	Vols     map[uint32]*VolInfo
-	chans    []chan *master_pb.VolumeLocation
-	nextVid  uint32
-	servers  []string // volume server urls in start order
-	Addr     string
-	jwt      string
-	sizeLim  uint64
-	defRepl  string
-	NoGrow   bool
+	mu         sync.Mutex
+	seq        *sequence.MemorySequencer
+	Vols       map[uint32]*VolInfo
+	chans      []chan *master_pb.VolumeLocation
+	nextVid    uint32
+	servers    []string // volume server urls in start order
+	Addr       string
+	jwt        string
+	sizeLim    uint64
+	defRepl    string
+	NoGrow     bool
 	Heartbeats int
 	// ec shard registry from heartbeats: vid -> url -> shard bits
 	ec map[uint32]map[string]uint32
@@ -608,7 +609,7 @@ func New(o Options) (*Cluster, error) {
 		url := "127.0.0.1:" + strconv.Itoa(vp)
 		vs := weed_server.NewVolumeServer(vmux, vmux, "127.0.0.1", vp, url, []string{dir}, []int{100},
 			[]util.MinFreeSpace{{}}, []types.DiskType{types.HardDriveType}, "", storage.NeedleMapInMemory,
-			[]string{c.MasterAddr}, 1, "dc1", fmt.Sprintf("r%d", i), nil, false, "local", 0, o.FileSizeLimitMB, 0)
+			[]string{c.MasterAddr}, 1, "dc1", fmt.Sprintf("r%d", i), nil, false, "local", o.CompactionMBps, o.FileSizeLimitMB, 0)
 		ServeHttp(vp, vmux)
 		ServeGrpc(vp+10000, func(s *grpc.Server) { volume_server_pb.RegisterVolumeServerServer(s, vs) })
 		c.Volumes = append(c.Volumes, &VolumeNode{Url: url, Port: vp, Dir: dir, Server: vs})
